@@ -308,6 +308,8 @@ def deserialize_address(address, encoding=None, network=None):
             witver = pkh_incl[0] - 0x50 if pkh_incl[0] else 0
             prefix = address[:address.rfind('1')]
             networks = network_by_value('prefix_bech32', prefix)
+            if network and network not in networks:
+                raise BKeyError("Network %s not found in extracted networks: %s" % (network, networks))
             witness_type = 'segwit' if not witver else 'taproot'
             if not witver:
                 script_type = 'p2wpkh' if len(public_key_hash) == 20 else 'p2wsh'
@@ -319,7 +321,7 @@ def deserialize_address(address, encoding=None, network=None):
                 'public_key_hash': '' if not public_key_hash else public_key_hash.hex(),
                 'public_key_hash_bytes': public_key_hash,
                 'prefix': prefix,
-                'network': '' if not networks else networks[0],
+                'network': network if network else ('' if not networks else networks[0]),
                 'script_type': script_type,
                 'witness_type': witness_type,
                 'networks': networks,
